@@ -27,6 +27,8 @@ EXPLANATION += ' X86-LOOPSTORE, A64-/RV-RT-STOREORDER, A64-IMMHELP, A64-/RV-MEM-
 
 EXPLANATION += ' X86-/A64-/RV-LOOPLOAD.'
 
+EXPLANATION += ' A64-DSITEM-HSEM, A64-DSREAD-LIGHT, RV-DSREAD-LIGHT.'
+
 
 def run(ctx, R):
     F = astq.Facts(ctx, 'K0')
@@ -82,3 +84,4 @@ def run(ctx, R):
     rvdsread.rule_dsread(ctx, R)
     rvdsread.rule_loopload(ctx, R)
     rvdsread.rule_dsread_light(ctx, R)
+    a64dsread.rule_dsitem(ctx, R)
